@@ -36,6 +36,7 @@ type output struct {
 	Entries     []entryOut        `json:"entries"`
 	Diagnostics []string          `json:"diagnostics"`
 	CacheWrites []cacheWrite      `json:"cache_writes"`
+	GoWrites    []cacheWrite      `json:"go_writes"`
 	Notes       []string          `json:"notes"`
 	Stats       map[string]int    `json:"stats"`
 	Functions   []fnPaths         `json:"functions"`
@@ -163,6 +164,10 @@ func main() {
 			for _, cw := range w.cacheW {
 				cw.Via = name + ": " + cw.Via
 				out.CacheWrites = append(out.CacheWrites, cw)
+			}
+			for _, gw := range w.goW {
+				gw.Via = name + ": " + gw.Via
+				out.GoWrites = append(out.GoWrites, gw)
 			}
 			for k := range w.notFound {
 				notes[name+": "+k] = true
